@@ -7,7 +7,7 @@ import sys
 import subprocess
 import vf
 
-GEN = [("Gen_ClientMux_happy.cfg", 0.35), ("Gen_ClientMux_mild.cfg", 0.25), ("Gen_ClientMux_sim.cfg", 0.40)]
+GEN = [("Gen_ClientMux_happy.cfg", 0.25), ("Gen_ClientMux_mild.cfg", 0.20), ("Gen_ClientMux_sim.cfg", 0.35), ("Gen_ClientMux_polite.cfg", 0.20)]
 
 
 def validate(ctx, traces, tag, module="Trace_ClientMux"):
@@ -92,6 +92,27 @@ def execute(ctx, binp, scns, test, module, kind):
     return traces, ok, acc
 
 
+def reduced_leg(ctx, total, note):
+    """a reduced budget of this check's schedules on the real multiplexer, for checks whose specification takes
+    'every request handed to the client gets its callback exactly once' as given (C05, C11)"""
+    seen, scns = set(), []
+    for cfg, share in GEN:
+        g = ctx.tlc("Gen_ClientMux", cfg, workers=1, simulate="num=%d" % int(total * share), depth=300, timeout=2400)
+        for s in g.json_lines("SCN "):
+            k = json.dumps(s)
+            if k not in seen:
+                seen.add(k)
+                scns.append(s)
+    binp = ctx.go_test_bin("internal/app/connectconformance", ["c10", "peers"], race=True)
+    traces, ok, acc = execute(ctx, binp, scns, "TestVerifC10Run", "Trace_ClientMux", "inproc")
+    if ctx.notes.get("unreproduced_hangs") and not ctx.violations and not ctx.known_hits:
+        h = ctx.notes["unreproduced_hangs"][0]
+        raise vf.Machinery("unreproduced hang in the client multiplexer leg: %s schedule=%s" % (h["hang"], json.dumps(h["schedule"])))
+    ctx.cov["traces_validated_against_impl"] += len(ok)
+    ctx.cov["evaluations"] += len(traces)
+    ctx.notes[note] = dict(schedules=len(scns), accepted=len(acc))
+
+
 def run(ctx):
     q = ctx.quick
     mc = ctx.tlc("MC_ClientMux", "MC_ClientMux_q.cfg" if q else "MC_ClientMux.cfg", deadlock=True, timeout=3000)
@@ -119,8 +140,8 @@ def run(ctx):
     ctx.notes["mc_design_os"] = dict(distinct=mco.distinct, generated=mco.generated)
     if not q:
         ctx.tlc("MC_ClientMuxOS", "MC_ClientMuxOS_live.cfg", deadlock=True, timeout=3000)
-    # (closing its own stdin / waiting to be aborted are scripted for the in-process client only)
-    os_scns = [s for s in scns if not any(h[0] in ("CI", "B") for h in s["hist"])]
+    # (closing its own stdin or stdout / waiting to be aborted are scripted for the in-process client only)
+    os_scns = [s for s in scns if not any(h[0] in ("CI", "B", "CO") for h in s["hist"])]
     if q and not ctx.replay:
         os_scns = os_scns[::2]
     traces2, ok2, acc2 = execute(ctx, binp, os_scns, "TestVerifC10RunOS", "Trace_ClientMuxOS", "os")
